@@ -56,6 +56,7 @@ def ctsMachine (bs : Nat) (fs : (Bytes → Bytes) × (Bytes → Bytes)) (keyLen 
       | _, _ => ((), bad)
     | ["clone"] => ((), "ok")
     | ["use", _] => ((), "ok")
+    | ["clonefrom", _] => ((), "ok")
     | _ => ((), bad)
 
 /-- the implementation layer for the current code: the *checked memory-level* mirror (`Impl/MemCts.lean`) — in place
@@ -97,6 +98,7 @@ def ctsMemMachine (C : Cipher) (w : Nat) (iv : Bytes) (ops : MemCts.Op × MemCts
       | _, _ => ((), bad)
     | ["clone"] => ((), "ok")
     | ["use", _] => ((), "ok")
+    | ["clonefrom", _] => ((), "ok")
     | _ => ((), bad)
 
 /-- raw block encryption / decryption with the case's cipher (the toy cipher, or the table of a logged real cipher) -/
